@@ -158,39 +158,30 @@ end noisy
 section navg
 open Opda.Noisy Opda.TrapLoop
 
-/-- reflection, *with* the `1[y>0]` term, when no grid point is exactly `0` -/
+/-- reflection of the integrated curve, at every refinement level, no side condition (the legacy integrand
+with `1[y>0]` needed "no grid point is exactly 0") -/
 theorem navg_reflect {F : Fns ℝ} (hF : Lawful F) (hS : Symm F) (d : Params ℝ) (hab : d.a < d.b) (m : Bool)
-    (nn : ℝ) (i : ℕ)
-    (h0 : ∀ k : ℕ, k ≤ 2^i → intHi F d - k * Trap.h (intLo F d) (intHi F d) i ≠ 0) :
-    valueCur F.n F.pow (cdf F (reflect d)) (!m) nn (intLo F (reflect d)) (intHi F (reflect d)) i
-      = - valueCur F.n F.pow (cdf F d) m nn (intLo F d) (intHi F d) i :=
-  Noisy.avg_reflect hF hS d hab m nn i h0
+    (nn : ℝ) (i : ℕ) :
+    valueRep F.n F.pow (cdf F (reflect d)) (!m) nn (intLo F (reflect d)) (intHi F (reflect d)) i
+      = - valueRep F.n F.pow (cdf F d) m nn (intLo F d) (intHi F d) i :=
+  Noisy.avg_reflect hF hS d hab m nn i
 
-/-- location–scale equivariance of the integrand without `1[y>0]` (the repaired form) -/
-theorem navg_repaired_affine {F : Fns ℝ} (hF : Lawful F) (hQ : SqrtScale F) (d : Params ℝ) (hab : d.a < d.b)
+/-- location–scale equivariance of the integrated curve, at every refinement level -/
+theorem navg_affine {F : Fns ℝ} (hF : Lawful F) (hQ : SqrtScale F) (d : Params ℝ) (hab : d.a < d.b)
     (m : Bool) (nn : ℝ) (i : ℕ) :
     valueRep F.n F.pow (cdf F d) m nn (intLo F d) (intHi F d) i
       = d.a + (d.b - d.a) * valueRep F.n F.pow (cdf F (std0 d)) m nn (intLo F (std0 d)) (intHi F (std0 d)) i :=
   avgRep_affine hF hQ d hab m nn i
 
-/-- **partial**: the code's integrand agrees with the repaired one only when `0 ∉ (a−6o, b+6o]`.
-Missing: the case `a − 6o ≤ 0 < b + 6o` (e.g. every distribution of scores in `[0,1]`, and always the
-standard member `D₀`), where the jump of `1[y>0]` lies inside the integration range — finding F4. -/
-theorem navg_current_eq_repaired_partial {F : Fns ℝ} (hF : Lawful F) (d : Params ℝ) (hab : d.a ≤ d.b)
-    (ho : 0 ≤ d.o) (m : Bool) (nn : ℝ) (i : ℕ) (h : 0 < intLo F d ∨ intHi F d ≤ 0) :
-    valueCur F.n F.pow (cdf F d) m nn (intLo F d) (intHi F d) i
-      = valueRep F.n F.pow (cdf F d) m nn (intLo F d) (intHi F d) i :=
-  avgCur_eq_avgRep_partial hF d hab ho m nn i h
-
-/-- **partial**: shifting the location by `t` shifts the code's integrated curve by `t` when both
-integration ranges avoid `0`.  Missing: exactly the instances of F4. -/
-theorem navg_current_shift_partial {F : Fns ℝ} (hF : Lawful F) (hQ : SqrtScale F) (d : Params ℝ)
-    (hab : d.a < d.b) (ho : 0 ≤ d.o) (t : ℝ) (m : Bool) (nn : ℝ) (i : ℕ)
-    (h : 0 < intLo F d ∨ intHi F d ≤ 0) (h' : 0 < intLo F d + t ∨ intHi F d + t ≤ 0) :
-    valueCur F.n F.pow (cdf F { d with a := d.a + t, b := d.b + t }) m nn
-        (intLo F { d with a := d.a + t, b := d.b + t }) (intHi F { d with a := d.a + t, b := d.b + t }) i
-      = t + valueCur F.n F.pow (cdf F d) m nn (intLo F d) (intHi F d) i :=
-  avgCur_shift_partial hF hQ d hab ho t m nn i h h'
+/-- `valueRep … i` is what the model's `averageTuningCurve` returns when its loop stops at round `i` -/
+theorem navg_value_is_valueRep {F : Fns ℝ} (d : Params ℝ) (ns : List ℝ) (mn : Option Bool) (atol : Option ℝ)
+    (r : ℕ × List ℝ × List ℝ) (h : avgRun F d ns mn atol = some r)
+    (hT : r.2.1 = ns.map fun nn => (iter F.n (gRep F.n F.pow (cdf F d) (mn.getD d.convex) nn) (intLo F d) (intHi F d) r.1).2) :
+    averageTuningCurve F d ns mn atol
+      = some (ns.map fun nn => valueRep F.n F.pow (cdf F d) (mn.getD d.convex) nn (intLo F d) (intHi F d) r.1) := by
+  unfold averageTuningCurve
+  rw [h, Option.map_some, hT, List.map_map]
+  rfl
 
 end navg
 
